@@ -46,6 +46,7 @@ def cases(tier):
                 out.append(dict(k=k, order=''.join(map(str, range(k))), dup=pos * 10 + which, second=0, overlap=0))
     out.append(dict(k=2, order='01', dup=-1, second=1, overlap=0))
     out.append(dict(k=2, order='10', dup=-1, second=2, overlap=0))
+    out.append(dict(k=2, order='01', dup=-1, second=3, overlap=0))
     return out
 
 
@@ -118,11 +119,11 @@ def harness(case, tier):
         cut2 = c.sym_int('cutB', 0, 2 ** 32, size=True)
         c.assume(cut2 <= T2)
         orig2 = c.sym_blob('orig2', T2)
-        # same source and sequence number, different creation time (case 1) / different source (case 2)
-        src2, ts2 = ('dtn://src/a', ts + 1) if case['second'] == 1 else ('dtn://src/b', ts)
+        # differs from bundle A in exactly one identity component: creation time (1), source (2), sequence number (3)
+        src2, ts2, seq2 = {1: ('dtn://src/a', ts + 1, 0), 2: ('dtn://src/b', ts, 0), 3: ('dtn://src/a', ts, 1)}[case['second']]
         second = dict(T=T2, orig=orig2, ivals=[(0, cut2), (cut2, T2 - cut2)],
-                      frags=[fragment_octets(src2, ts2, 0, dest, 0, cut2, T2, orig2[0:cut2], None),
-                             fragment_octets(src2, ts2, 0, dest, cut2, T2 - cut2, T2, orig2[cut2:T2], None)])
+                      frags=[fragment_octets(src2, ts2, seq2, dest, 0, cut2, T2, orig2[0:cut2], None),
+                             fragment_octets(src2, ts2, seq2, dest, cut2, T2 - cut2, T2, orig2[cut2:T2], None)])
         seq = [seq[0], ('B', 0)] + seq[1:] + [('B', 1)]
 
     arrived = {'A': [], 'B': []}
@@ -178,7 +179,7 @@ def tag_of(pri):
     t = pri.create_ts.getfieldval('dtntime')
     # bundle A has source .../a and the base timestamp; the harness stores it for comparison
     base = TAG.get('ts')
-    if src == 'dtn://src/a' and bool(t == base):
+    if src == 'dtn://src/a' and bool(t == base) and bool(pri.create_ts.getfieldval('seqno') == 0):
         return 'A'
     return 'B'
 
